@@ -133,6 +133,8 @@ bucket_fromBytes(PyObject *oself, PyObject *state)
     }
   len /= 8;
 
+  PER_USE_OR_RETURN(self, NULL);
+
   if (self->next) {
     Py_DECREF(self->next);
     self->next = NULL;
@@ -141,10 +143,10 @@ bucket_fromBytes(PyObject *oself, PyObject *state)
   if (len > self->size) {
     keys = BTree_Realloc(self->keys, sizeof(KEY_TYPE)*len);
     if (keys == NULL)
-      return NULL;
+      goto err;
     values = BTree_Realloc(self->values, sizeof(VALUE_TYPE)*len);
     if (values == NULL)
-      return NULL;
+      goto err;
     self->keys = keys;
     self->values = values;
     self->size = len;
@@ -155,6 +157,14 @@ bucket_fromBytes(PyObject *oself, PyObject *state)
 
   self->len = len;
 
+  if (PER_CHANGED(self) < 0)
+    goto err;
+  PER_UNUSE(self);
+
   Py_INCREF(self);
   return (PyObject *)self;
+
+ err:
+  PER_UNUSE(self);
+  return NULL;
 }
